@@ -10,7 +10,8 @@ CONSTANTS Lang, MaxLen, Mode      \* Lang: "path" | "pointer" | "relptr"; Mode: 
 
 \* TLC keeps strings as bytes when it spills states to disk, so lexemes outside ASCII are given by name
 \* ("EACUTE", "SUPER2") and spelled out by the recorder; "HUGE" stands for a run of 4400 nines (more digits
-\* than the host's integer conversion accepts), which no specification string could usefully carry
+\* than the host's integer conversion accepts), which no specification string could usefully carry; "SQRUN" /
+\* "DQRUN" / "RERUN" stand for an opening ' / " / slash followed by 70 backslashes (an unterminated literal with a long escape run)
 VARIABLES s, done
 vars == <<s, done>>
 
@@ -18,7 +19,7 @@ L(str) == str
 PathLex == << "$", "@", ".", "..", "[", "]", "(", ")", "?", "*", ",", ":", "'a'", "\"b\"", "'", "\"", "a", "1", "-1", "01", "1e2", "1.5", "1e-1",
               "9007199254740993", "-", "+", "==", "!=", "<", "<>", "&&", "||", "!", " in ", " contains ", "=~", "/a/", "/(/", "/a", "/a/i", "true", "null",
               "length(", "count(", "match(", "value(", "nosuch(", "#", "_", "~", "^", " | ", " & ", "undefined", " ", "\\", "'\\u00e9'", "'\\ud800'", "EACUTE", "0", "and", "not ",
-              "1e400", "1.0e16", "1.5e1", "/a{99999999999999999999}/", "'a{99999999999999999999}'", "aaaaaaaaaaaaaaaaaaaaaaaaaaaaaaaaaaaaaaaa", "HUGE" >>
+              "1e400", "1.0e16", "1.5e1", "/a{99999999999999999999}/", "'a{99999999999999999999}'", "aaaaaaaaaaaaaaaaaaaaaaaaaaaaaaaaaaaaaaaa", "HUGE", "SQRUN", "DQRUN", "RERUN" >>
 PtrLex == << "/", "~", "0", "1", "a", "-", "#", "\\u0041", "\\", "\\ud800", " ", "EACUTE", "%41", "~0", "~1", "~2", "-1", "01", "9007199254740993", "\\x", "SUPER2", "HUGE" >>
 RelLex == << "0", "1", "2", "10", "+", "-", "#", "/", "a", "~", "01", " ", "\\", "+0", "EACUTE", "HUGE" >>
 Lex == CASE Lang = "path" -> PathLex [] Lang = "pointer" -> PtrLex [] Lang = "relptr" -> RelLex [] OTHER -> <<>>
